@@ -3,11 +3,12 @@
 //
 // usage: partset <traces.json>
 // Trace kinds (cfg.kind):
-//   "dyn"    cfg {partSize, dataLen, salt}; init {total,...}; steps AddPart(claimedIndex, sourcePart, mutation, result)
-//   "merkle" init {n, root, proofs, confusions} of SimpleMerkle.tla: the real tree must be the spec's tree, and
-//            SimpleProof.Verify is brute-forced over every (proof, leaf, index, total, single-field mutation)
-//   "sizes"  cfg {partSizes, maxParts, salt}: NewPartSetFromData / reassembly over data lengths and part sizes
-//   "bigtree" cfg {n}: the brute force of "merkle" for tree sizes beyond the model, without its predictions
+//
+//	"dyn"    cfg {partSize, dataLen, salt}; init {total,...}; steps AddPart(claimedIndex, sourcePart, mutation, result)
+//	"merkle" init {n, root, proofs, confusions} of SimpleMerkle.tla: the real tree must be the spec's tree, and
+//	         SimpleProof.Verify is brute-forced over every (proof, leaf, index, total, single-field mutation)
+//	"sizes"  cfg {partSizes, maxParts, salt}: NewPartSetFromData / reassembly over data lengths and part sizes
+//	"bigtree" cfg {n}: the brute force of "merkle" for tree sizes beyond the model, without its predictions
 package main
 
 import (
@@ -21,8 +22,11 @@ import (
 
 	crypto "github.com/dappledger/AnnChain/gemmill/go-crypto"
 	wire "github.com/dappledger/AnnChain/gemmill/go-wire"
+	glog "github.com/dappledger/AnnChain/gemmill/modules/go-log"
 	merkle "github.com/dappledger/AnnChain/gemmill/modules/go-merkle"
 	"github.com/dappledger/AnnChain/gemmill/types"
+
+	"go.uber.org/zap"
 
 	"verifharness/mbt"
 )
@@ -643,6 +647,7 @@ func runSizes(c *ctx, tr mbt.Trace) {
 
 func main() {
 	crypto.NodeInit(crypto.CryptoTypeZhongAn)
+	glog.SetLog(zap.NewNop())
 	if len(os.Args) < 2 {
 		fmt.Fprintln(os.Stderr, "usage: partset traces.json")
 		os.Exit(2)
